@@ -271,6 +271,7 @@ def run(ctx):
                     ctx.ob('reader-types', 'MetaVar/constraint-elements', ok,
                            'the serializer writes `var.name` of each constraint element (EVar/SVar objects) but the deserializer passes '
                            'bare ints to metavar(); re-serializing the replayed call fails', where)
+    writer_lossless(ctx, py, w)
     # every handled opcode that nobody writes is harmless; report count
     ctx.analysed['writer opcodes'] = len(writer)
     ctx.analysed['reader branches'] = len(handled)
@@ -377,6 +378,70 @@ def _is_raw_int_tuple(a) -> bool:
     """value produced by read_list(): a tuple of ints (directly or through a generator unpacking)"""
     s = repr(a)
     return 'read_list' in s
+
+
+# parameters that are generator-side labels, not machine state: one line of reason each
+LABEL_PARAMS = {('save', 'id'): 'the name of a memory slot exists only in the generator; the machine addresses slots by index',
+                ('load', 'id'): 'the name of a memory slot exists only in the generator; the machine addresses slots by index'}
+
+
+def _mentions(v, needle) -> bool:
+    if v == needle:
+        return True
+    return isinstance(v, tuple) and any(_mentions(x, needle) for x in v)
+
+
+def writer_lossless(ctx, py, w):
+    """a call can be replayed from its bytes only if nothing it depends on is lost: in every case of every serializer method each
+    parameter is written as an operand, or tied to a stack slot by the tracker (the replay reads it from the stack), or forced to
+    its default by the very condition that selects the case (the short CleanMetaVar form)"""
+    ser = w.top
+    n = 0
+    for meth in PM.INTERP_METHODS:
+        got = w.serializer_cases(meth)
+        st = PM.level_facts(py, w.stateful, meth)
+        if got is None or st is None:
+            continue
+        mf, cases = got
+        params = [a.arg for a in mf.node.args.args[1:]]
+        slot_bound = set()
+        for rec in st.paths:
+            for a, b in rec['binds']:
+                for x, y in ((a, b), (b, a)):
+                    if _has_slot(x):
+                        for p_ in params:
+                            if _mentions(y, ('param', p_)):
+                                slot_bound.add(p_)
+        for case in cases:
+            if not case['opcode']:
+                continue
+            written = {p_ for p_ in params if any(_mentions(o, ('param', p_)) for o in case['operands'])}
+            forced = set()
+            for c, b in case['conds']:
+                if b is False and c[0] == 'param':
+                    forced.add(c[1])
+                if b is True and c[0] == 'cmp' and c[1] == '==' and ('const', 0) in (c[2], c[3]):
+                    other = c[2] if c[3] == ('const', 0) else c[3]
+                    if other[0] == 'call' and other[1] == ('name', 'sum') and other[2] and other[2][0][0] == 'comp':
+                        comp = other[2][0]
+                        if len(comp[3]) == 1 and comp[3][0][1][0] == 'list' and comp[2] == ('call', ('name', 'len'), (('bound', comp[3][0][0]),), ()):
+                            forced |= {el[1] for el in comp[3][0][1][1] if el[0] == 'param'}
+                    if other[0] == 'call' and other[1] == ('name', 'len') and other[2] and other[2][0][0] == 'param':
+                        forced.add(other[2][0][1])
+            lost = [p_ for p_ in params if p_ not in written and p_ not in slot_bound and p_ not in forced and (meth, p_) not in LABEL_PARAMS]
+            n += 1
+            ctx.ob('writer-lossless', f'{meth}->{case["opcode"]}', not lost,
+                   f'{meth} written as {case["opcode"]} loses its argument(s) {lost}: not among the operands written, not a term the tracker '
+                   f'ties to a stack slot, and not forced empty by the condition selecting this encoding - the replayed call differs '
+                   f'from the serialised one whenever such an argument is not the default', py.where(ser.module, mf.node),
+                   facts={'written': sorted(written), 'on the stack': sorted(slot_bound & set(params)), 'forced default': sorted(forced & set(params))})
+    ctx.floor('writer-lossless', 24)
+
+
+def _has_slot(v) -> bool:
+    if isinstance(v, tuple) and v and v[0] in ('slot', 'run'):
+        return True
+    return isinstance(v, tuple) and any(_has_slot(x) for x in v)
 
 
 def publish_phases(ctx, py, acc, calls_per_path, where):
